@@ -86,9 +86,11 @@ class Pi(schemes.interface.inverted_index_sse.InvertedIndexSSE):
             T_list[i].extend(
                 ((os.urandom(self.config.param_l), os.urandom(d_len)) for _ in range((2 ** (t - i)) - len(T_list[i]))))
 
-        # padding list S to N elements
+        # padding list S to N elements, dummy values have the same length as the real encrypted sizes
+        ni_prime_len = len(self.config.ske.Encrypt(b"\x00" * self.config.param_k_prime,
+                                                   b"\x00" * math.ceil((t + 1) / 8)))
         S.extend(
-            ((os.urandom(self.config.param_l_prime), os.urandom(math.ceil((t + 1) / 8)))
+            ((os.urandom(self.config.param_l_prime), os.urandom(ni_prime_len))
              for _ in range(N - len(S)))
         )
 
